@@ -38,13 +38,13 @@ const ExpectedPackages = 13
 
 // Prog is the loaded program.
 type Prog struct {
-	Dir   string
-	Tier  string
-	Fset  *token.FileSet
-	Pkgs  []*packages.Package
+	Dir    string
+	Tier   string
+	Fset   *token.FileSet
+	Pkgs   []*packages.Package
 	ByPath map[string]*packages.Package
-	SSA   *ssa.Program
-	SSAPk map[string]*ssa.Package
+	SSA    *ssa.Program
+	SSAPk  map[string]*ssa.Package
 	// lazily built
 	cg       *callgraph.Graph
 	allFuncs map[*ssa.Function]bool
